@@ -239,6 +239,8 @@ def main(pid, tier):
                 "groups": build_info,
                 "solver": "z3 %s (wheel), one process per query" % _z3v(),
                 "solver_time_s": solver_time,
+                "slowest_queries": [{"obligation": ob["name"], "solver_s": res["time"]} for ob, res in
+                                    sorted(results, key=lambda x: -x[1]["time"])[:5]],
                 "exhaustive": False,
             },
             "assumptions": getattr(h, "ASSUMPTIONS", []),
@@ -254,6 +256,9 @@ def main(pid, tier):
               f"{len(harness_errors)} harness errors; solver {solver_time}s, wall {ev['wall_s']}s")
         for ob, res in inconclusive:
             print(f"  inconclusive: {ob['name']} [{res['status']} {res['time']}s]")
+        slow = sorted(results, key=lambda x: -x[1]["time"])[:5]
+        print("  slowest: " + ", ".join(f"{ob['name']} {res['time']}s" for ob, res in slow if res["time"] > 1))
+        print("  builders: " + ", ".join(f"{g} {i.get('build_s')}s" for g, i in sorted(build_info.items(), key=lambda x: -(x[1].get("build_s") or 0))[:5]))
         return rc
     finally:
         shutil.rmtree(tmp, ignore_errors=True)
